@@ -1089,3 +1089,13 @@ Proof.
   destruct (run_safe fl ops1 hub_init (dm_init_safe fl)) as [H1 _].
   now destruct (run_safe fl ops2 _ H1) as [_ L].
 Qed.
+
+(** ** the driver's entity alphabet: the write-time equality does not depend on the data-layer flags
+    (so the C14 correspondence is insensitive to the repairs of F01a / F02b; C01/C02 cover those) *)
+Lemma mkc_eqb_flag_free fl v t d v' t' d' :
+  content_eqb fl (mkc v t d) (mkc v' t' d') = identical (mkc v t d) (mkc v' t' d').
+Proof.
+  unfold identical, content_eqb, mkc. destruct fl as [lk on]. cbn.
+  destruct (t <? 0), (t' <? 0), d, d', lk; cbn; rewrite ?andb_true_r, ?andb_false_r; try reflexivity;
+    unfold pval_eqb; cbn; destruct on; cbn; rewrite ?andb_true_r; reflexivity.
+Qed.
